@@ -94,8 +94,11 @@ fn read_index_file<T: Read>(mut source: T) -> Result<Vec<ShapeIndex>, Error> {
     // and a length shorter than the header is an error, not a negative count.
     let num_shapes = (i64::from(header.file_length) * 2 - i64::from(header::HEADER_SIZE))
         / INDEX_RECORD_SIZE as i64;
-    let num_shapes = usize::try_from(num_shapes).map_err(|_| invalid_data("invalid index file length"))?;
-    let mut shapes_index = Vec::<ShapeIndex>::with_capacity(num_shapes);
+    let num_shapes =
+        usize::try_from(num_shapes).map_err(|_| invalid_data("invalid index file length"))?;
+    // the count is only declared at this point: reserve a bounded amount, the rest as entries arrive
+    let mut shapes_index =
+        Vec::<ShapeIndex>::with_capacity(num_shapes.min(record::io::MAX_PREALLOCATED_ELEMENTS));
     for _ in 0..num_shapes {
         let offset = source.read_i32::<BigEndian>()?;
         let record_size = source.read_i32::<BigEndian>()?;
